@@ -39,3 +39,24 @@ Theorem C07_no_trace : forall (sf sq : bool) (ops1 ops2 : list (op (T:=R))) (s1 
   snd (step RN sf sq (fst (run RN sf sq s1 ops1)) o) = snd (step RN sf sq (fst (run RN sf sq s2 ops2)) o).
 Proof. exact LC07.no_trace. Qed.
 Print Assumptions C07_no_trace.
+
+(* the ratio-recovery premise discharged: for grading ratios above 1 and D50 above the pseudo-liquid limit (what the
+   viewer enforces; the property's quantifier) every abstract state is valid ... *)
+From DHV Require Import LC07b.
+Local Open Scope R_scope.
+Theorem C07_ratio_recovery : forall a : astate,
+  1 < a_r15 a -> 1 < a_r85 a -> 0 < dlim_of (a_p a) < p_D50 (a_p a) -> valid a.
+Proof. intros a H1 H2 H3. apply LC07b.phys_valid. exact (conj H1 (conj H2 H3)). Qed.
+Print Assumptions C07_ratio_recovery.
+
+(* ... so the no-stale-data theorem holds under physical premises only *)
+Theorem C07_no_stale_physical : forall (sf sq : bool) (ops : list (op (T:=R))) (s : state (T:=R)) (a : astate),
+  Inv sf sq s a -> all_phys a ops ->
+  snd (run RN sf sq s ops) = spec_outs sf sq a ops /\ Inv sf sq (fst (run RN sf sq s ops)) (afinal a ops).
+Proof. exact LC07b.no_stale_physical. Qed.
+Print Assumptions C07_no_stale_physical.
+
+Theorem C07_init_physical : forall (sf sq : bool) (Dp D50 : R) (is_salt : bool) (Cv : R) (mi : nat),
+  phys (a_init Dp D50 is_salt Cv mi) -> Inv sf sq (init RN Dp D50 is_salt Cv mi) (a_init Dp D50 is_salt Cv mi).
+Proof. exact LC07b.init_physical. Qed.
+Print Assumptions C07_init_physical.
